@@ -48,6 +48,7 @@ BODIES = {
     "zero_then_raise_key": bytes([0x32, 0xCC, 0xFC, 0x00, 0x32, 0x79, 0xFC, 0x08]),
     # the FIRST time the handler runs it executes RESET (a counter in internal RAM decides); later runs return normally
     "reset_once": bytes([0x32, 0x80, 0x50, 0x6C, 0x00, 0x32, 0xA0, 0x50, 0x60, 0x01, 0x1A, 0x01, 0xFF]),
+    "zero": bytes([0x32, 0xCC, 0xFC, 0x00]),       # blanket acknowledge: MV (ISR),0
 }
 IMR_VALUES = [0x00, 0x01, 0x04, 0x0F, 0x80, 0x81, 0x84, 0x8F, 0xFF]
 KEYS = ["KEY_Q", "KEY_A", "KEY_F1"]
@@ -144,6 +145,7 @@ def check_run(res, model, scen, script, observations, err):
     res.monitor("entries_observed", mon.stats["entries"])
     res.monitor("retis_observed", mon.stats["retis"])
     res.monitor("halt_observed", mon.stats["halt_steps"])
+    res.monitor("masked_key_request_steps", mon.stats.get("masked_key_steps", 0))
     for k, v in mon.stats.items():
         res.count(f"{model}_{k}", v)
     case = {"model": model, "scenario": {k: scen[k] for k in ("main", "body", "imr0", "timer")},
@@ -197,9 +199,40 @@ def run_jobs(res, jobs):
         res.sample({"scenario": {k: s[k] for k in ("main", "body", "imr0", "timer")}, "script": [list(o) for o in sc[:14]]})
 
 
+def run_key_during_handler(res, tier):
+    """Directed: a timer handler that acknowledges with a blanket `MV (ISR),0` is running again and again while a key goes
+    down and stays down. The key request (raised while the master enable is clear) must not be lost: at least one KEY
+    interrupt has to be taken afterwards (both models keep key events until KIL is read)."""
+    jobs = []
+    for imr0 in (0x85, 0x8F):
+        for mti in (3, 5):
+            for t in range(8, 30, 1 if tier == "thorough" else 3):
+                scen = scenario("busy", "zero", imr0, {"enabled": True, "mti": mti, "sti": 0}, kb_irq=True)
+                jobs.append((scen, build_script(150, {t: ("press", "KEY_Q")}), t))
+    kc = key_codes()
+    routs = machine.run_rust([(s_, sc) for s_, sc, _ in jobs], kc)
+    for (scen, script, t), (robs, _e, _r) in zip(jobs, routs):
+        pobs = machine.PyMachine(scen).run(script)
+        check_run(res, "py", scen, script, pobs, None)
+        check_run(res, "rs", scen, script, robs, _e)
+        for model, obs in (("py", pobs), ("rs", robs)):
+            res.evaluations += 1
+            res.monitor("key_request_during_handler")
+            if not obs:
+                continue
+            last = obs[-1]
+            if last["irq_mti"] >= 3 and last["irq_key"] == 0:
+                res.violation({"clause": "key_request_raised_during_handler_is_lost", "model": model},
+                              {"model": model, "imr0": scen["imr0"], "mti": scen["timer"]["mti"], "press_at": t},
+                              {"irq_key": last["irq_key"], "irq_mti": last["irq_mti"], "fifo": last["fifo"], "isr": last["isr"]})
+            elif last["irq_key"]:
+                res.nontrivial("keyhandler", model, scen["imr0"], scen["timer"]["mti"], t)
+
+
 def plan(tier, seed):
     specs = []
     idx = 0
+    specs.append({"kind": "keyhandler", "seed": seed, "tier": tier, "idx": 9000})
     nen = 16 if tier == "quick" else 48
     for i in range(nen):
         specs.append({"kind": "enum", "part": i, "parts": nen, "seed": seed, "tier": tier, "idx": idx}); idx += 1
@@ -242,6 +275,9 @@ def run_shard(spec) -> Result:
                         placed = {p: evs_d[c] for p, c in zip(pl, combo)}
                         jobs.append((scen, build_script(6 + window + 8, placed)))
         res.count("enumerated_runs", len(jobs))
+    elif spec["kind"] == "keyhandler":
+        run_key_during_handler(res, tier)
+        return res
     elif spec["kind"] == "valgrind":
         # the raw-pointer bus of CoreRuntime::step and the raw TimerContext pointer of the IMR/ISR hook under memcheck
         vj = []
